@@ -103,3 +103,22 @@ Proof.
   - intros k Hd Hk. exact (ExtraRefine2.gen_continuous_noisy f L x draws k Hd Hk).
 Qed.
 Print Assumptions C20_regenerated_continuous_evaluate.
+
+(* the regenerated Dataset.__init__: inputs min-max scaled column by column — in [0, 1] with both ends attained — and outputs
+   standardised column by column — mean 0 and population variance 1 (std being the square root of the column's variance) *)
+From VOPy Require Metrics.
+Theorem C20_datasets_are_scaled : forall col,
+  col <> [] ->
+  (~ Metrics.qmaxl col 0 == Metrics.qminl col 0 ->
+     (forall y, In y (Gen_extra2.gen_ds_minmax col) -> 0 <= y /\ y <= 1) /\
+     (exists y0, In y0 (Gen_extra2.gen_ds_minmax col) /\ y0 == 0) /\ (exists y1, In y1 (Gen_extra2.gen_ds_minmax col) /\ y1 == 1)) /\
+  (forall std, ~ std == 0 -> Gen_extra2.gen_ds_sum (Gen_extra2.gen_ds_standardise col std) == 0) /\
+  (forall std, ~ std == 0 -> std * std == Gen_extra2.gen_ds_variance col ->
+     Gen_extra2.gen_ds_sum (map (fun y => y * y) (Gen_extra2.gen_ds_standardise col std)) / inject_Z (Z.of_nat (length col)) == 1).
+Proof.
+  intros col H. split; [|split].
+  - exact (ExtraRefine2.ds_minmax_in_unit col H).
+  - intros std Hs. exact (ExtraRefine2.ds_standardised_mean_zero col std H Hs).
+  - intros std Hs Hv. exact (ExtraRefine2.ds_standardised_variance_one col std H Hs Hv).
+Qed.
+Print Assumptions C20_datasets_are_scaled.
